@@ -103,9 +103,13 @@ def marker_spec(kind: str, v: Dict[str, bool]) -> str:
     if kind == "POSITIONAL_OR_KEYWORD":
         if v["HAS_POS"]:
             return "ERROR" if v["HAS_KW"] else "POS_INDEX"
-        if v["STAR_ARGS"]:
-            if v["HAS_KW"]:
-                return "ERROR"
+        if v["HAS_KW"]:
+            # an explicit keyword is kind KEYWORD whether or not *args is passed too. (Until the
+            # binder fix recorded in DESIGN.md section 5 the tree reported an error here and this
+            # table had copied it; the specification never asked for that.)
+            return "KW_NAME"
+        # *args cannot reach a parameter that follows one passed by keyword
+        if v["STAR_ARGS"] and not v.get("STAR_EXHAUSTED", False):
             if v["STAR_KWARGS"]:
                 return "UNKNOWN"
             return "UNKNOWN" if d else "ARGS"
@@ -122,7 +126,13 @@ def r20_2(prog: Program, chk: Check) -> None:
     b = Binder(prog)
     site = prog.site("signature", b.fn)
     for kind in ("POSITIONAL_ONLY", "POSITIONAL_OR_KEYWORD", "KEYWORD_ONLY"):
-        tab, ev = b.table(kind, ATOMS, FULL)
+        atoms = list(ATOMS)
+        fixed = dict(FULL)
+        if kind == "POSITIONAL_OR_KEYWORD" and b.exhausted_flag:
+            atoms.append("STAR_EXHAUSTED")
+        else:
+            fixed["STAR_EXHAUSTED"] = False
+        tab, ev = b.table(kind, atoms, fixed)
         for val, seqs in tab.items():
             v = dict(val)
             want = marker_spec(kind, v)
